@@ -90,6 +90,13 @@ pub fn build_image(seed: u64) -> Result<Image, String> {
         write_batch(&db, &b)?;
         apply(&mut base, &b);
     }
+    if seed % 5 == 2 {
+        // a compressible value of 150 KB: its data block is stored as a Snappy frame stream of three
+        // chunks (64 KiB of input each) - the only kind of block with chunk headers INSIDE it
+        let b: BatchOps = vec![(b"big-snappy".to_vec(), Some((0..150_000u32).map(|i| b"abcdefg"[(i % 7) as usize]).collect()))];
+        write_batch(&db, &b)?;
+        apply(&mut base, &b);
+    }
     db.compact_range(None..None);
     db.verif_wait_idle(std::time::Duration::from_secs(20));
     if seed % 3 == 0 {
@@ -245,6 +252,36 @@ fn log_type_offsets(file: &[u8]) -> Vec<usize> {
         let len = file[pos + 4] as usize + 256 * file[pos + 5] as usize;
         out.push(pos + 6);
         pos += 7 + len;
+    }
+    out
+}
+
+/// offsets of the chunk-type bytes of the Snappy frame streams in a table file: (offset, index of
+/// the chunk inside its stream, number of chunks of the stream)
+fn snappy_chunk_offsets(file: &[u8]) -> Vec<(usize, usize, usize)> {
+    let ident = b"\xff\x06\x00\x00sNaPpY";
+    let mut out = vec![];
+    let mut i = 0;
+    while i + ident.len() <= file.len() {
+        if &file[i..i + ident.len()] == ident {
+            let mut o = i + ident.len();
+            let mut chunks = vec![];
+            while o + 4 <= file.len() && (file[o] == 0x00 || file[o] == 0x01) {
+                let len = file[o + 1] as usize | (file[o + 2] as usize) << 8 | (file[o + 3] as usize) << 16;
+                if len < 4 || o + 4 + len > file.len() {
+                    break;
+                }
+                chunks.push(o);
+                o += 4 + len;
+            }
+            let n = chunks.len();
+            for (k, c) in chunks.into_iter().enumerate() {
+                out.push((c, k, n));
+            }
+            i = o.max(i + 1);
+        } else {
+            i += 1;
+        }
     }
     out
 }
@@ -494,7 +531,11 @@ pub fn run(tier: &str, seed: u64, replay: Option<&str>, shard: Option<ShardArgs>
     }
     let mut rng = Prng::new(seed ^ 0xC15);
     let nimg = if thorough { 24 } else { 6 };
-    let seeds: Vec<u64> = (0..nimg).map(|_| rng.next() % 1_000_000).collect();
+    let mut seeds: Vec<u64> = (0..nimg).map(|_| rng.next() % 1_000_000).collect();
+    if !seeds.iter().any(|s| s % 5 == 2) {
+        // at least one image with a multi-chunk Snappy block (seed % 5 == 2, see build_image)
+        seeds[0] = seeds[0] - seeds[0] % 5 + 2;
+    }
     let (idx, cnt) = shard.as_ref().map_or((0, 1), |s| (s.index, s.count));
     let shard_opt = shard;
     let mut job_no = 0usize;
@@ -547,6 +588,30 @@ pub fn run(tier: &str, seed: u64, replay: Option<&str>, shard: Option<ShardArgs>
                 }
             }
             if cls == "table" {
+                // the chunk headers inside compressed blocks: type byte to a skippable / reserved /
+                // other type, length bytes flipped - every chunk of a multi-chunk stream, a sample of
+                // the single-chunk ones
+                if let Some(data) = img.fs.read_file(&path) {
+                    let offs = snappy_chunk_offsets(&data);
+                    let singles = offs.iter().filter(|c| c.2 == 1).count();
+                    let mut taken = 0;
+                    for (o, _, n) in offs {
+                        if n == 1 {
+                            taken += 1;
+                            if taken > 6 && taken + 3 < singles {
+                                continue;
+                            }
+                        } else {
+                            rep.count("c15.snappy-chunk-headers-of-multi-chunk-blocks");
+                        }
+                        for v in [0x80u8, 0xfe, 0x7f, 0x01, 0x00, 0xff] {
+                            muts.push(Mutation::Set(o, v));
+                        }
+                        for d in 1..=3 {
+                            muts.push(Mutation::Flip(o + d, prng.below(8) as u8));
+                        }
+                    }
+                }
                 for _ in 0..(if thorough { 40 } else { 8 }) {
                     muts.push(Mutation::Truncate(prng.below(len as u64) as usize));
                 }
